@@ -458,7 +458,10 @@ class HelicityAmplitudeBuilder:
 
         amplitude = self.config.spin_alignment.formulate_amplitude(self.reaction)
         spin_projections = collect_spin_projections(self.reaction)
-        intensity = PoolSum(sp.Abs(amplitude) ** 2, *spin_projections.items())
+        intensity = PoolSum(
+            sp.Abs(amplitude) ** 2,
+            *((symbol, sorted(values)) for symbol, values in spin_projections.items()),
+        )
         for symbol in _collect_summed_amplitude_symbols(intensity):
             # combinations of spin projections for which there is no transition
             self.__ingredients.amplitudes.setdefault(symbol, sp.S.Zero)
